@@ -6,7 +6,9 @@ import (
 	"errors"
 	"fmt"
 	"net"
+	"strings"
 	"sync"
+	"sync/atomic"
 	"time"
 
 	"verif/faultconn"
@@ -69,6 +71,13 @@ func (s *stamps) get() []time.Time {
 
 // checkGaps verifies gap_j >= w_{j-free} for the recorded attempt times.
 func checkGaps(c *fw.Ctx, id, what string, ts []time.Time, free int, descr string) (maxRate float64) {
+	return checkGapsFn(c, id, what, ts, func(j int) int { return j - free }, descr)
+}
+
+// checkGapsFn verifies gap_j >= w_{step(j)} where step(j) < 0 means that the
+// wait after attempt j is not constrained.
+func checkGapsFn(c *fw.Ctx, id, what string, ts []time.Time, step func(j int) int, descr string) (maxRate float64) {
+	free := 0
 	sched := scheduleSteps()
 	w := func(i int) time.Duration {
 		if i >= len(sched) {
@@ -78,10 +87,10 @@ func checkGaps(c *fw.Ctx, id, what string, ts []time.Time, free int, descr strin
 	}
 	for j := 0; j+1 < len(ts); j++ {
 		gap := ts[j+1].Sub(ts[j])
-		if j-free < 0 {
+		if step(j) < 0 {
 			continue
 		}
-		need := w(j - free)
+		need := w(step(j))
 		c.Count("gaps_checked", 1)
 		if gap < need {
 			c.Violate(id, "backoff:retry-too-early:"+what, fmt.Sprintf("%s: attempt %d came %v after attempt %d, the schedule requires at least %v (free immediate retries: %d; attempts so far %d): %s",
@@ -190,6 +199,7 @@ func runC17Scenario(c *fw.Ctx, sc c17Scenario, seed int64) {
 	}
 	free := 0
 	what := ""
+	var stepFn func(j int) int
 	var measured *stamps
 	queue := 100
 	switch sc.Name {
@@ -202,6 +212,51 @@ func runC17Scenario(c *fw.Ctx, sc c17Scenario, seed int64) {
 			return nil
 		}
 		measured, what = &userWrites, "request-attempts"
+	case "too-busy-and-not-serving-alternating":
+		// attempts 0,2,4.. are answered retry-later, attempts 1,3,5.. not-serving
+		// (the region probe succeeds): the waits after the retry-later answers
+		// must keep growing along the schedule
+		var n int32
+		cl.OnAction = func(req *sim.Request, a *sim.Action) *sim.Exc {
+			if a.OpID == opid {
+				if atomic.AddInt32(&n, 1)%2 == 1 {
+					return &sim.Exc{Class: sim.ExcTooBusy}
+				}
+				return &sim.Exc{Class: sim.ExcNSRE}
+			}
+			return nil
+		}
+		measured, what = &userWrites, "request-attempts"
+		stepFn = func(j int) int {
+			if j%2 == 0 {
+				return j / 2
+			}
+			return -1
+		}
+	case "abort-abort-not-serving-repeating":
+		// connection-level, connection-level, not-serving, repeated: after the two
+		// free retries every connection-level answer is followed by a scheduled wait
+		var n int32
+		cl.OnAction = func(req *sim.Request, a *sim.Action) *sim.Exc {
+			if a.OpID == opid {
+				if atomic.AddInt32(&n, 1)%3 == 0 {
+					return &sim.Exc{Class: sim.ExcNSRE}
+				}
+				return &sim.Exc{Class: sim.ExcAborted}
+			}
+			return nil
+		}
+		measured, what = &userWrites, "request-attempts"
+		stepFn = func(j int) int {
+			if j%3 == 2 {
+				return -1 // after a not-serving answer
+			}
+			k := j - j/3 // number of connection-level answers before this one
+			if k < 2 {
+				return -1
+			}
+			return k - 2
+		}
 	case "abort-exception-forever":
 		cl.OnAction = func(req *sim.Request, a *sim.Action) *sim.Exc {
 			if a.OpID == opid {
@@ -294,7 +349,17 @@ func runC17Scenario(c *fw.Ctx, sc c17Scenario, seed int64) {
 	if len(ts) < 4 {
 		c.Inconclusive("too-few-attempts:" + sc.Name)
 	}
-	rate := checkGaps(c, id, what, ts, free, descr)
+	var rate float64
+	if stepFn != nil {
+		if sc.Entry == "batch" {
+			stepFn = nil // mixed-answer scenarios are defined for single calls
+		}
+	}
+	if stepFn != nil {
+		rate = checkGapsFn(c, id, what, ts, stepFn, descr)
+	} else if !strings.Contains(sc.Name, "alternating") && !strings.Contains(sc.Name, "repeating") {
+		rate = checkGaps(c, id, what, ts, free, descr)
+	}
 	c.Max("max_attempts_in_any_second", int64(rate))
 	c.Sample(descr)
 	within(3*time.Second, client.Close)
@@ -310,7 +375,8 @@ func init() {
 			"an independently computed schedule; waits beyond the tier's limit are ended by cancellation (must return the " +
 			"context error promptly). (ii) persistent-failure scenarios {too-busy / call-queue / region-opening forever, abort " +
 			"exception forever, connection dropped on the request, on the probe, dial refused, region never online, meta " +
-			"silent, meta lookup error, ZooKeeper errors} x {single call, batch}: client-side timestamps of consecutive attempts " +
+			"silent, meta lookup error, ZooKeeper errors; retry-later alternating with not-serving; two connection-level answers then " +
+			"not-serving, repeated} x {single call, batch}: client-side timestamps of consecutive attempts " +
 			"must satisfy gap_j >= w_(j-free) with free = 2 only for connection-level failures of a request. distinct = " +
 			"schedule step / scenario x entry point; all non-trivial",
 		Assumptions: []string{"timestamps are taken in the client's goroutines (dialer, Write, ZooKeeper call): only lower bounds are judged"},
@@ -321,7 +387,7 @@ func init() {
 			return fw.Plan{Batches: 2, Parallel: 2, Timeout: 6 * time.Minute}
 		},
 		Floors: func(tier string) map[string]int64 {
-			return map[string]int64{"schedule_steps_verified": 10, "scenarios": 18, "gaps_checked": 100, "attempts_observed": 120}
+			return map[string]int64{"schedule_steps_verified": 10, "scenarios": 22, "gaps_checked": 100, "attempts_observed": 120}
 		},
 		Run: func(c *fw.Ctx) {
 			maxStep := 8200 * time.Millisecond
@@ -336,6 +402,7 @@ func init() {
 				go func() { defer wg.Done(); c17Function(c, maxStep) }()
 			}
 			names := []string{"too-busy-forever", "call-queue-forever", "region-opening-forever", "abort-exception-forever", "drop-on-user-frame",
+				"too-busy-and-not-serving-alternating", "abort-abort-not-serving-repeating",
 				"drop-on-probe", "dial-refused", "region-never-online", "meta-silent", "meta-lookup-error", "zookeeper-errors"}
 			k := 0
 			for _, n := range names {
